@@ -38,6 +38,40 @@ CHECKS = {
          "Complete over the stated alphabets only; tolerance 4e-7*(1+cond) for the package's float32 xyY->XYZ step.", "benum", "5/C20"),
 }
 
+
+CHECKS.update({
+ "C05": ("exploration", "bounded-exhaustive enumeration of header fields and chunk/segment grammars built from typed descriptions, cross-validated by the standard decoders",
+         "Every header field value of the stated sets (complete 14/16-bit fields, walking bits + byte lanes + all values < 2^16 for 31-bit fields in quick; all 2^31-1, 2^24 and 2^28 in thorough), every legal PNG type/depth pair, all chunk/segment sequences up to depth 3 and next-chunk headers at every alignment across the read-buffer boundaries are loaded through the specific loader and autometa and compared with the description; DecodeConfig of image/png, image/jpeg, x/image/webp confirms the generator.",
+         "Well-formedness is defined by the generator and confirmed by the standard decoders on the grammar and quick field sets; files the decoder rejects as unsupported are compared with the description only.", "benum", "5/C05"),
+ "C06": ("model_checking", "explicit enumeration of all JPEG segment sequences up to a depth over a 21-symbol alphabet, each executed on the real loader and compared with a reference state machine; bounded-exhaustive sizes/orders/damage for PNG, JPEG, WebP",
+         "The JPEG ICC reassembly is treated as a state machine: every sequence of <= 5 (quick) / 6 (thorough) segments is executed on jpegmeta.Load and compared step-free with a reference model of chunk bookkeeping (states reached and transitions are reported); payload sizes across every buffer boundary, all chunk orders up to 5 chunks with foreign segments interleaved, 255 chunks, MiB payloads, all name lengths, deflate levels, and every single-byte substitution/truncation of three compressed streams are enumerated.",
+         "Reference model in gen/containers.go (JPEGModel); duplicates and damage located after the earliest stopping point are left unpinned as the property does not pin them.", "benum", "5/C06"),
+ "C07": ("fault_enumeration", "exhaustive enumeration of end positions x endings (EOF, data+EOF, I/O error, data+error) x delivery x loaders x drain styles; source objects of other dynamic types; deviation-bounded DFS over reader answers incl. errors (thorough)",
+         "For every seed every truncation point and every failure position is a separate execution of the real loader followed by draining the returned stream; the bytes and the terminal condition are compared with what the source delivered.",
+         "Seeds: one per format variant / parser error branch plus the repository images (every position up to 8 KiB).", "envx", "5/C07"),
+ "C08": ("model_checking", "stateless depth-first exploration of io.Reader answer sequences (short reads, data+EOF) with a deviation bound, every trace executed on the real loaders / ICC reader and compared with the all-at-once outcome",
+         "Each Read call of the source is a choice point; all answer sequences with <= 2 (quick) / 3 (thorough) deviations from FULL plus 16 uniform schedules are executed on fresh loaders; determinism of the harness is asserted by replaying the default schedule twice and by failing hard on replay divergence.",
+         "Answer alphabet {FULL, FULL+EOF, SHORT(1,2,3,n/2,n-1)}; (0,nil) reads not generated.", "envx", "5/C08"),
+ "C09": ("exploration", "deviation-bounded exhaustive mutation (every 32/16-bit window x boundary values, every single-byte substitution, every truncation, pairs of annotated fields) executed in resource-limited worker processes with allocation, CPU-time and liveness oracles",
+         "Every single-field deviation from each seed (no field annotation needed: every window at every offset is treated as a field), every byte substitution and truncation, plus crafted legal amplifying shapes, is run through all entry points; a panic reaching the harness, heap allocation beyond 1 MiB + 8192 x input, CPU beyond 2 s + 50 us x input, a dead or stalled worker are violations.",
+         "Budgets are fixed linear functions chosen far above correct behaviour; fuzzing clauses of the quantifier are not used (sampling).", "benum", "5/C09"),
+ "C11": ("model_checking", "controlled scheduler over overlay-instrumented sources: stateless DFS over goroutine interleavings with a preemption bound (all interleavings for the 2-goroutine first-use scenarios), vector-clock happens-before race detection and per-call sequential-value oracle on every execution; free-running -race cross-check",
+         "The real code, instrumented at check time (sync operations, go statements, package-level variables written outside init, captured variables, pixel accesses), is executed under a scheduler that enumerates schedules; every execution is checked for happens-before races per the Go memory model and for value equality with the sequential result; fresh package state per execution makes every execution a 'very first use'.",
+         "SC interleavings only (weak memory via DRF-SC); <= 3 goroutines; accesses the rewriter cannot see are covered by the supplementary go build -race pass of the same scenarios.", "xsched", "5/C11"),
+ "C16": ("exploration", "bounded-exhaustive enumeration of header bit patterns (walking ones/zeros over all 1,024 bits on five backgrounds, every byte lane, all version byte pairs, date components, flag combinations) against an independent decoder written from the ICC.1 field table",
+         "Each header bit is shown to feed exactly the field the specification assigns it to on the backgrounds tried; all 65,536 version byte pairs are rendered; every single-bit and single-byte signature change must be rejected.",
+         "Independent decoder in refs/icc.go; CreatedAt compared only for valid calendar instants.", "benum", "5/C16"),
+ "C17": ("exploration", "bounded-exhaustive enumeration of a profile layout grammar (tag counts, table/data orders, padding, sharing; v2 lengths/contents; mluc record counts, orders, placements, languages, alphabets) with a set-membership oracle",
+         "Every layout of the grammar up to the stated sizes is serialised by an independent generator and read back through ReadProfile/Description; where the specification leaves a choice the oracle is set membership and Description is called repeatedly because the implementation chooses through map iteration.",
+         "Known finding: empty 'en' string falls back to another language (listed in known_findings.txt).", "benum", "5/C17"),
+ "C18": ("model_checking", "counting source with a virtual pixel payload; uniform schedules and deviation-bounded DFS over reader answers; truncation-at-need differential",
+         "For every generated file (ICC absent / before / after / between > 64 KiB of ancillary data, every chunk order) and payload tail up to 64 MiB (1 GiB thorough) the bytes pulled from the source at the moment Load returns are measured under every explored schedule and the file cut after its last needed structure must give the same result.",
+         "need(file) comes from the generator; for repository images from bisection on the prefix length.", "envx", "5/C18"),
+ "C19": ("exploration", "differential enumeration: autometa against the first succeeding specific loader over generated grammars, every truncation and every single-byte substitution of the seeds, polyglots",
+         "Every input of the corpora is loaded by all three specific loaders and by autometa (all at once and one byte per call); metadata, ICC outcome, failure and stream replay are compared.",
+         "The specific loaders are the specification, as the property states.", "benum", "5/C19"),
+})
+
 PENDING = "check not built yet in this revision (work in progress; see DESIGN.md section 5 for the plan)"
 
 def main():
